@@ -54,6 +54,7 @@ THEOREMS = [
     'C13_inline_den',
     'C13_inline_score_den',
     'C13_find_occurrences_sound',
+    'C13_find_occurrences_complete',
     'C13_inline_complete',
     'C13_inline_model',
     'C13_inline_total',
@@ -63,6 +64,9 @@ THEOREMS = [
     'C13_fill_geometry_den_tr',
     'C13_fill_flags_lockstep',
     'C13_options_same_geometry',
+    'C13_merged_surfaces_equal_senses',
+    'C13_options_same_written_linked',
+    'C13_options_same_written_dedup_linked',
 ]
 TRUSTED = [
     'hand-written model coq/C13/Model.v (modelled, tied by execution only)',
@@ -493,6 +497,20 @@ def tie_inlining(res, rng, n):
                 res.violation('impl-violation', 'inline_cells: ' + why,
                               {'input': {'cells': cells, 'score': score},
                                'observed': out}, found_input=True)
+    groups = (
+        ('c13_size', 'geom * N * list Z', 'check_size', size_cases),
+        ('c13_occ', 'list (Z * mcell) * res (list (Z * list Z))',
+         'check_occ', occ_cases),
+        ('c13_inline', 'list (Z * mcell) * list Z * res (list (Z * mcell))',
+         'check_inline', inl_cases),
+        ('c13_score', 'list (Z * mcell) * float * res (list (Z * mcell))',
+         'check_inline_score', score_cases))
+    # the four groups of generated files are independent: compile them together
+    from concurrent.futures import ThreadPoolExecutor
+    with ThreadPoolExecutor(max_workers=4) as pool:
+        futs = {g[0]: pool.submit(common.run_case_files, g[0], HEADER, g[1],
+                                  g[2], g[3], 100) for g in groups}
+        results = {k: f.result() for k, f in futs.items()}
     for name, typ, fun, cases in (
             ('c13_size', 'geom * N * list Z', 'check_size', size_cases),
             ('c13_occ', 'list (Z * mcell) * res (list (Z * list Z))',
@@ -501,7 +519,7 @@ def tie_inlining(res, rng, n):
              'check_inline', inl_cases),
             ('c13_score', 'list (Z * mcell) * float * res (list (Z * mcell))',
              'check_inline_score', score_cases)):
-        bad, errs = common.run_case_files(name, HEADER, typ, fun, cases)
+        bad, errs = results[name]
         res.obligation(f'tie:{name[4:]} ({len(cases)} cases: implementation = '
                        'model)', not bad and not errs,
                        f'{len(bad)} disagreements {errs[:1]}')
@@ -606,7 +624,7 @@ def tie_fill(res, rng, n):
                       found_input=False)
 
 
-def tie_fill_tr(res, rng, n):
+def tie_fill_tr(res, rng, n, cov=None):
     '''The FILL loop WITH transformations on generated decks: cell table
     captured from the real conversion before and after the loop vs
     ModelTr.fill_loop_tr.'''
@@ -622,7 +640,14 @@ def tie_fill_tr(res, rng, n):
         args = (['--always-inline-filled'] if fd else []) + \
             (['--always-inline-filling'] if fg else []) + \
             deckmod.lattice_args(dck)
-        got = tie.impl_fill_tr(text, args)
+        if cov is not None and len(cases) < 30:
+            # whole conversions are slow under the tracer: the first 30 decks
+            # are enough to execute every line of pot_fill / cell_transform /
+            # pot_transform
+            with cov:
+                got = tie.impl_fill_tr(text, args)
+        else:
+            got = tie.impl_fill_tr(text, args)
         if got is None:
             res.count('fill_tr:not-captured')
             continue
@@ -684,7 +709,7 @@ def classify_failures(text, lat, status):
 
 
 def run_sweep(res, tier, rng):
-    n_decks = 70 if tier == 'quick' else 600
+    n_decks = 60 if tier == 'quick' else 600
     n_points = 120 if tier == 'quick' else 200
     n_sigma = 100 if tier == 'quick' else 200
     jobs, metas = [], []
@@ -769,13 +794,29 @@ def run(res, tier, seed, proofs_ok):
     run_witnesses(res)
     run_witness_empty(res)
     run_corpus(res)
-    tie_eq(res, rng, 300 if quick else 4000)
-    tie_dedup(res, rng, 250 if quick else 2000)
-    tie_renumber(res, rng, 150 if quick else 1500)
-    tie_finish(res, rng, 250 if quick else 2000)
-    tie_inlining(res, rng, 250 if quick else 2000)
-    tie_fill(res, rng, 150 if quick else 1500)
-    tie_fill_tr(res, rng, 80 if quick else 800)
+    import c13_cov
+    cov = c13_cov.LineCov(c13_cov.anchored_functions())
+    with cov:
+        tie_eq(res, rng, 300 if quick else 4000)
+        tie_dedup(res, rng, 250 if quick else 2000)
+        tie_renumber(res, rng, 150 if quick else 1500)
+        tie_finish(res, rng, 250 if quick else 2000)
+        tie_inlining(res, rng, 250 if quick else 2000)
+        tie_fill(res, rng, 150 if quick else 1500)
+    tie_fill_tr(res, rng, 60 if quick else 800, cov)
+    total, missing = cov.missing(c13_cov.UNREACHABLE)
+    res.obligation('coverage: the tied calls execute every reachable line of '
+                   f'the anchored functions ({total} lines of {len(cov.codes)} '
+                   'code objects)', not missing,
+                   f'never executed: {missing[:6]}')
+    res.extra['anchored_lines'] = total
+    if missing:
+        res.violation('harness-error',
+                      'the ties no longer reach these lines of the anchored '
+                      f'code (strengthen the generators): {missing[:8]}',
+                      {'theorem_or_correspondence': 'coverage',
+                       'input': {'lines': [list(m) for m in missing[:20]]}},
+                      found_input=False)
     run_sweep(res, tier, rng)
 
 
